@@ -32,9 +32,9 @@ type ggen struct {
 	nextCtr  int
 	nextFn   int
 	regT     []int64 // targets a skill callback was registered for
-	inFn     int   // nesting depth of function bodies
-	loop     int   // nesting depth of loops
-	sw       int   // nesting depth of switch cases
+	inFn     int     // nesting depth of function bodies
+	loop     int     // nesting depth of loops
+	sw       int     // nesting depth of switch cases
 	budget   int
 	faults   int  // remaining injected faults (ill-typed stream)
 	cbs      bool // registered callbacks
@@ -54,15 +54,17 @@ var intPool = []string{"0", "1", "2", "3", "5", "7", "10", "-1", "-2", "-7", "10
 	"2147483647", "2147483648", "4294967297", "9007199254740992", "9007199254740993", "-9007199254740993",
 	"4611686018427387904", "9223372036854775806", "9223372036854775807", "-9223372036854775808",
 	"-9223372036854775807", "3037000500", "true", "false"}
-var floatPool = []string{"0.0", "0.5", "1.5", "2.25", "-0.5", "-1.5", "0.1", "0.2", "0.3", "3.", ".5", "1.0", "2.0", "100.125",
+var floatPool = []string{"0.0", "0.5", "1.5", "2.25", "-0.5", "-1.5", "0.1", "0.2", "0.3", "3.", ".5", "1.0", "( 0.0 / 0.0 )", "100.125",
 	"9223372036854775808", "9223372036854775807.0", "-9223372036854775809", "18446744073709551616.0", "0.000001",
-	"9007199254740993.0", "1000000000000000000000.0", "-0.0"}
+	"9007199254740993.0", "1000000000000000000000.0", "-0.0",
+	// NaN and the infinities, as gcs programs can produce them (energy / max_energy with a zero maximum)
+	"( 0.0 / 0.0 )", "( 1.0 / 0.0 )", "( -1.0 / 0.0 )", "( ( 1.0 / 0.0 ) - ( 1.0 / 0.0 ) )"}
 var targetPool = []string{"0", "1", "2", "3", "4", "9"}
 
 func (g *ggen) w(s string) { g.sb.WriteString(s); g.sb.WriteString(" ") }
 
-func (g *ggen) push() { g.scopes = append(g.scopes, &gscope{vars: map[string]string{}}) }
-func (g *ggen) pop()  { g.scopes = g.scopes[:len(g.scopes)-1] }
+func (g *ggen) push()        { g.scopes = append(g.scopes, &gscope{vars: map[string]string{}}) }
+func (g *ggen) pop()         { g.scopes = g.scopes[:len(g.scopes)-1] }
 func (g *ggen) top() *gscope { return g.scopes[len(g.scopes)-1] }
 
 // functions visible here (declared in an enclosing scope, earlier in the text)
@@ -110,6 +112,9 @@ func (g *ggen) numLit() string {
 	case 6, 7:
 		return term.Pick(g.r, floatPool[:14])
 	case 8:
+		if g.r.Chance(1, 3) {
+			return term.Pick(g.r, floatPool[len(floatPool)-4:])
+		}
 		return term.Pick(g.r, floatPool)
 	default:
 		return fmt.Sprint(g.r.Range(-20, 60))
